@@ -48,7 +48,7 @@ B = _load_base()
 Unsupported = B.Unsupported
 find_function, function_source, function_infos = B.find_function, B.function_source, B.function_infos
 
-PRELUDE = r"""From Coq Require Import List ZArith Bool Arith.
+PRELUDE = r"""From Coq Require Import List ZArith QArith Qround Bool Arith.
 Import ListNotations.
 Local Open Scope nat_scope.
 
@@ -184,7 +184,7 @@ def coq_type(t):
 
 
 def default_of(t):
-    return {"nat": "0", "Z": "0%Z", "bool": "false", "T": "zero", "E": "PInf"}.get(t) or (
+    return {"nat": "0", "Z": "0%Z", "bool": "false", "T": "zero", "E": "PInf", "Q": "0%Q"}.get(t) or (
         "[]" if is_list(t) or is_arr(t) else None)
 
 
@@ -229,8 +229,9 @@ class ModuleInfo:
 
 
 class NpTranslator:
-    def __init__(self, minfo, name, fspec, node, done):
+    def __init__(self, minfo, name, fspec, node, done, numeric=False):
         self.m, self.name, self.spec, self.node, self.done = minfo, name, fspec, node, done
+        self.numeric = numeric
         self.coq = fspec.get("as", name.lstrip("_") + "_gen")
         self.fixed = fspec.get("fixed", {})
         self.vt = {}            # local -> type
@@ -265,6 +266,8 @@ class NpTranslator:
             return text
         if is_list(t) and to == "arr1 " + elem(t):
             return text
+        if t == "nat" and to == "Q":
+            return "(inject_Z (Z.of_nat %s))" % text
         if t == "nat" and to == "T":
             return "(ofNat %s)" % text
         raise self.bad("a value of type %s where %s is needed (`%s`)" % (t, to, text), node)
@@ -314,6 +317,11 @@ class NpTranslator:
             if sym is None:
                 raise self.bad("operator %s on array elements" % type(op).__name__, node)
             return "(%s %s %s)%%Z" % (self.coerce(a, ta, "Z"), sym, self.coerce(b, tb, "Z")), "Z"
+        if {ta, tb} <= {"nat", "Q"} and "Q" in (ta, tb):
+            sym = {ast.Add: "+", ast.Sub: "-", ast.Mult: "*", ast.Div: "/"}.get(type(op))
+            if sym is None:
+                raise self.bad("operator %s on floats (read as exact rationals)" % type(op).__name__, node)
+            return "(%s %s %s)%%Q" % (self.coerce(a, ta, "Q"), sym, self.coerce(b, tb, "Q")), "Q"
         if {ta, tb} <= {"nat", "T"}:
             f = {ast.Add: "add", ast.Sub: "sub", ast.Mult: "mul", ast.Div: "div"}.get(type(op))
             if f is None:
@@ -336,7 +344,7 @@ class NpTranslator:
     def expr(self, n):
         m = self.m
         if isinstance(n, ast.Name):
-            if n.id in self.fixed:
+            if isinstance(self.fixed.get(n.id), dict):
                 raise self.bad("the statically fixed parameter %s used as a value" % n.id, n)
             return self.var(n.id, n)
         if isinstance(n, ast.Constant):
@@ -345,8 +353,16 @@ class NpTranslator:
                 return ("true" if v else "false"), "bool"
             if isinstance(v, int) and v >= 0:
                 return str(v), "nat"
-            if isinstance(v, float) and v == 0.0 and str(v) == "0.0":
-                return "zero", "T"
+            if isinstance(v, float) and self.numeric:
+                if v == 0.0 and str(v) == "0.0":
+                    return "zero", "T"
+                raise self.bad("float literal %r in a module over the abstract numeric type" % (v,), n)
+            if isinstance(v, float) and v == v and abs(v) != float("inf"):
+                from fractions import Fraction
+                fr = Fraction(repr(v))          # the decimal Python prints for the literal, exactly
+                if fr < 0:
+                    raise self.bad("negative float literal", n)
+                return "(%d # %d)%%Q" % (fr.numerator, fr.denominator), "Q"
             raise self.bad("literal %r" % (v,), n)
         if isinstance(n, ast.Attribute):
             d = m.dotted(n)
@@ -481,6 +497,8 @@ class NpTranslator:
                         and type(a.right.value) is float and a.right.value == 0.5:
                     return "(Nat.sqrt %s)" % self.atom(self.nat(a.left)), "nat"
                 s, t = self.expr(a)
+                if t == "Q":                    # int() of a non-negative float, read as an exact rational
+                    return "(Z.to_nat (Qfloor %s))" % s, "nat"
                 if t != "nat":
                     raise self.bad("int() of %s" % t, n)
                 return s, "nat"
@@ -749,7 +767,7 @@ class NpTranslator:
             raise self.bad("signature / decorators of %s" % self.name, node)
         ptypes = self.spec.get("params", {})
         for arg in a.args:
-            if arg.arg in self.fixed:
+            if isinstance(self.fixed.get(arg.arg), dict):        # fixed to a string: not a parameter of the definition
                 continue
             if arg.arg not in ptypes:
                 raise self.bad("no type for the parameter %s in the spec" % arg.arg, node)
@@ -834,7 +852,7 @@ def translate_spec(repo, spec):
         fspec = spec.get("types", {}).get(name)
         if fspec is None:
             raise Unsupported("no typing for %s in the spec" % name)
-        ft = NpTranslator(minfo, name, fspec, node, done)
+        ft = NpTranslator(minfo, name, fspec, node, done, bool(spec.get("numeric")))
         text = ft.translate()
         note = ""
         if ft.fixed:
